@@ -44,13 +44,13 @@ def gen_job(rng, fw=None, layout=None):
 
 
 def is_tree(reg):
-    """each non-root model is referenced from exactly one class (one parent-ful pointer), roots only from outside"""
+    """each non-root model is referenced from exactly one class (possibly through several fields), roots only from outside"""
     for m in reg.models:
         with_parent = [p for p in m.pointers if p.parent is not None]
         rootp = [p for p in m.pointers if p.parent is None]
         if rootp and with_parent:
             return False
-        if not rootp and len(with_parent) != 1:
+        if not rootp and len({p.parent.index for p in with_parent}) != 1:
             return False
         if not rootp and not with_parent:
             return False
